@@ -419,8 +419,10 @@ def run(chk):
     c02.rule_r3(chk, rid="C05-R4")
     rule_r5(chk)
     rule_r6(chk)
+    from . import c16
+    c16.rule_r3(chk, rid="C05-R8")
     chk.assumptions = [
         "that converged values satisfy the equations is the solver's numerics: NOT decided",
         "system matrices satisfy A xi_t + B xi_{t-1} + C = 0, F y + G xi + H = 0 (the sign convention of fords.systems.System)",
-        "validity of the block ordering is C16; plans beyond name routing are not decided",
+        "validity of the block ordering beyond the prefetch accumulation order (C05-R8 = C16-R3) is C16; plans beyond name routing are not decided",
     ]
